@@ -244,6 +244,8 @@ def sample_label(rng):
 
 def _rand_acc(rng, maxrun):
     k = rng.choice([0, 0, 0, 1, 1, 2, rng.randint(0, maxrun)])
+    if rng.random() < 0.03:
+        k = rng.randint(11, 30)          # more than an octave of accidentals (semitone offsets beyond +-12)
     return rng.choice("b#") * k
 
 
@@ -606,7 +608,9 @@ def encode_cases(s, tag, flags=((False, False), (False, True), (True, False), (T
 def suite_encode(rng, tier, shard, nshards):
     for s in ["N", "X", "C", "N\n", "X\n", "C\n", "C:maj\n", "C/5\n", "C:(3)\n", "C:maj(3)\n", "", "C:(*3)",
               "C:maj(*3,3)", "C:maj(3,3)", "C:aug7", "C:maj11", "C:maj/2", "C/b1", "Cbbbbbbbbbbbbb", "C/bbbbbbbbbbbbbb1",
-              "B#:13(*1)/13", "C:1(*1)", "C:5(*1,*5)/5"][shard::nshards]:
+              "B#:13(*1)/13", "C:1(*1)", "C:5(*1,*5)/5", "C:maj(bbbbbbbbbbbbb1)", "C:(bbbbbbbbbbbbbb3)",
+              "C:maj(*bbbbbbbbbbbbb1)", "C:min(#############5)", "C:maj(bbbbbbbbbbbbbbbbbbbbbbbbb9)/3",
+              "D:7(############1,*b7)"][shard::nshards]:
         yield from encode_cases(s, "fixed")
     if tier == "thorough":
         npairs = len(BODIES) * len(BASSES)
@@ -808,7 +812,17 @@ def check_encode(inp):
 
 
 def check_encode_many(inp):
-    ls, r = inp["labels"], bool(inp.get("reduce", False))
+    """element-wise encode, for the requested flag and then for the OTHER flag on the same labels (an encoding
+    remembered from an earlier call must not be served under another flag)"""
+    r0 = bool(inp.get("reduce", False))
+    for k, r in enumerate((r0, not r0, r0)):
+        what = _check_encode_many_once(inp["labels"], r)
+        if what:
+            return what if k == 0 else "call %d on the same labels: %s" % (k + 1, what)
+    return None
+
+
+def _check_encode_many_once(ls, r):
     om = _outcome(lambda: [np.asarray(x).tolist() for x in chord.encode_many(ls, reduce_extended_chords=r)])
     if om[0] == "raised":
         return "encode_many(%r, %r) raised %s" % (ls, r, om[1])
@@ -837,7 +851,8 @@ def gen_validate(rng, tier, shard, nshards, boost):
 
 
 def gen_encode(rng, tier, shard, nshards, boost):
-    for s in ["N", "X", "N\n", "C\n", "C:maj\n", "C/5\n", "C:(3)\n", ""][shard::nshards]:
+    for s in ["N", "X", "N\n", "C\n", "C:maj\n", "C/5\n", "C:(3)\n", "", "C:maj(bbbbbbbbbbbbb1)", "C:(bbbbbbbbbbbbbb3)",
+              "C:maj(*bbbbbbbbbbbbb1)", "C:min(#############5)", "Cbbbbbbbbbbbbb:maj", "C:maj/bbbbbbbbbbbbbb3"][shard::nshards]:
         for r in (False, True):
             yield {"label": s, "reduce": r, "strict": False}
     if tier == "thorough" or boost > 1:
